@@ -880,7 +880,7 @@ func vfBadEntry(w *vfWorld, c *kit.Case) {
 	if r.Chance(0.3) {
 		gerr := s.c.Get(key, &vfRow{})
 		c.Obs("badentry_gets", 1)
-		if gerr == nil && how != 5 {
+		if gerr == nil {
 			c.Obs("badentry_get_reported_success", 1)
 		}
 	}
@@ -897,7 +897,7 @@ func vfBadEntry(w *vfWorld, c *kit.Case) {
 		}
 		c.Obs("badentry_reads", 1)
 		switch {
-		case rerr == nil && how != 5 && (s.db[key] == nil || got != *s.db[key]):
+		case rerr == nil && (s.db[key] == nil || got != *s.db[key]):
 			c.Viol("C06/coherence/broken-entry-read-reported-success", fmt.Sprintf("read %d of %s over an entry that does not unmarshal returned %v without error; database holds %s", i+1, key, got, s.want(key)), wit("read"))
 			return
 		case q > 1:
@@ -919,7 +919,7 @@ func vfBadEntry(w *vfWorld, c *kit.Case) {
 		n.mr.FastForward(2 * time.Hour)
 	}
 	got, rerr, _ := s.read(key)
-	if how != 5 && !s.same(got, rerr, key) {
+	if !s.same(got, rerr, key) {
 		c.Viol("C06/coherence/uncached-read-wrong/after-broken-entry-expired", fmt.Sprintf("read of %s after all entries expired returned %s, database holds %s", key, vfRes(got, rerr), s.want(key)), wit("read after expiry"))
 		return
 	}
